@@ -1,6 +1,7 @@
 import TexcraftModel.Util.Proto
 import TexcraftModel.Model.C11
 import TexcraftModel.Model.C11Bridge
+import TexcraftModel.Model.C11Norm
 
 /-! Driver for C11. A *program* is written
 `<rb|-1> <lb|-1> <n> (<next|-1> <right> <kind> <a> <b>)*n <m> (<char> <entry>)*m <k> <kern>*k`
@@ -11,6 +12,9 @@ with kind 0 `kern a`, 1 `kernAt a`, 2 `lig a b`, 3 `redirect a (b≠0)`.
                                    of the first program (before) against the second (after, as the real code left it)
 * `kerns <program>`             → the model's `unpackKerns`: `<program>` with the kerns array filled
 * `sem <program> <program>`     → `same` or the first pair on which `C05.rule` differs
+* `reach <program>`             → per word `<reachable 0|1> <adjusted skip | -1>` (`reachable_array`, `ReachableIter`)
+* `items <program>`             → the printed LIGTABLE: `0 c` label, `1` label boundarychar, `2 right kind a b` step, `3` stop, `4 n` skip
+* `norm <program>`              → `<printParse program> | <normalise program> | nwf=<0|1>` (entries sorted by character)
 * `dims <max> <n> <v>*n`        → `<table>* | <index of each v>*` (early-exit path of `compress`), or `lossy`
 -/
 open C11 Proto
@@ -88,6 +92,25 @@ def explainPack (o : Req) (q : Req) : String :=
     else if !boundaryOk o.prog q.prog then "bad: boundary: boundary char or left-boundary entry point not recoverable"
     else "bad: ?"
 
+def b2i (b : Bool) : Int := if b then 1 else 0
+
+def flagsAdj : List Instr → List Bool → List (List Int)
+  | i :: rest, f :: fl => [b2i f, if f then ofOpt (adjSkip i.next fl) else -1] :: flagsAdj rest fl
+  | _, _ => []
+
+def encItem : Item → List Int
+  | .label c => [0, (c : Int)]
+  | .labelB => [1]
+  | .op r o => [2, (r : Int)] ++ (encInstr ⟨none, r, o⟩).drop 2
+  | .stop => [3]
+  | .skip n => [4, (n : Int)]
+
+def insertByChar (x : Nat × Nat) : List (Nat × Nat) → List (Nat × Nat)
+  | [] => [x]
+  | y :: ys => if x.1 ≤ y.1 then x :: y :: ys else y :: insertByChar x ys
+
+def sortByChar (l : List (Nat × Nat)) : List (Nat × Nat) := l.foldr insertByChar []
+
 def handle (line : String) : String :=
   match words line with
   | "pack" :: ws =>
@@ -126,6 +149,24 @@ def handle (line : String) : String :=
           let pb := toC05 b.prog b.entries b.kerns
           s!"rule differs on ({showOptNat l},{r}): t0 {repr (C05.rule pa l r)} t1 {repr (C05.rule pb l r)}"
       | _ => "bad-request"
+    | _ => "bad-request"
+  | "reach" :: ws =>
+    match ints? ws >>= decProgram with
+    | some (r, []) =>
+      let fl := reachable r.prog r.entries
+      showInts (flagsAdj r.prog.instrs fl).flatten
+    | _ => "bad-request"
+  | "items" :: ws =>
+    match ints? ws >>= decProgram with
+    | some (r, []) =>
+      showInts ((printItems r.prog.lb r.entries 0 r.prog.instrs (reachable r.prog r.entries)).map encItem).flatten
+    | _ => "bad-request"
+  | "norm" :: ws =>
+    match ints? ws >>= decProgram with
+    | some (r, []) =>
+      let a := printParse r.prog r.entries
+      let b := normalise r.prog r.entries
+      s!"{showInts (encProgram a.1 (sortByChar a.2) [])} | {showInts (encProgram b.1 (sortByChar b.2) [])} | nwf={b2i (nwf r.prog r.entries)}"
     | _ => "bad-request"
   | "dims" :: ws =>
     match ints? ws with
